@@ -58,6 +58,12 @@ fn main() {
                 }
             }
         }
+        "probe" => {
+            let text = std::fs::read_to_string(&args[2]).expect("read");
+            let v: Value = serde_json::from_str(&text).expect("parse");
+            vharness::iface::install_panic_hook();
+            props::probe(&v);
+        }
         "c18-child" => {
             let scenario = args[2].clone();
             let n: usize = args[3].parse().unwrap();
@@ -411,7 +417,8 @@ fn supervise(prop: &str, tier: Tier, seed: u64) -> i32 {
         n_written += 1;
         let name = format!("{}/replays/{}-{}-{:016x}.json", VERIF, prop, tier.name(), vharness::util::fnv64(key.as_bytes()) ^ seed);
         let _ = std::fs::write(&name, serde_json::to_string_pretty(v).unwrap());
-        println!("violation [{}] {}", v["symptom"].as_str().unwrap_or(""), v["detail"].as_str().unwrap_or("").lines().next().unwrap_or(""));
+        let first: String = v["detail"].as_str().unwrap_or("").lines().next().unwrap_or("").chars().take(400).collect();
+        println!("violation [{}] {}", v["symptom"].as_str().unwrap_or(""), first);
         println!("VIOLATION property={} replay={}", prop, name);
         replay_paths.push(name);
     }
